@@ -123,6 +123,11 @@ func (h *history) extend(e *mp.Engine, to uint64) {
 }
 
 func run(c *kernel.Ctx) {
+	if c.Tape.Fork("part").Int(25) == 0 {
+		c.Finger("upgrade-replay")
+		upgradeReplay(c)
+		return
+	}
 	var h *history
 	attacks := 0
 	opt := mp.Options{
